@@ -11,13 +11,27 @@ ROOT = '/verif/seeded'
 
 
 def needs(notes):
+    t = _needs(notes)
+    if t:
+        m = re.search(r'(Trigger(?:s)?\b|Needed to manifest|What (?:it |exactly )?is needed|What it needs|needs? to manifest)', t)
+        if m and m.start() > 0:
+            t = t[m.start():]
+    return t
+
+
+def _needs(notes):
     paras = [p.strip() for p in re.split(r'\n\s*\n|\n(?=[-*] )', notes) if p.strip()]
+    head = re.compile(r'^[\s*_>#-]*(what (?:it |exactly )?(?:is )?needed|needed to manifest|what it needs|needs? to manifest|trigger(?:s|ed by)?\b|to trigger)', re.I)
     pat = re.compile(r'needed to manifest|needs? to manifest|what (?:it |exactly )?(?:is )?need|\btrigger\b|manifests? only|only manifests|\*\*what it needs', re.I)
+    for rx in (head, pat):
+        for p in paras:
+            if (rx.match(p) if rx is head else rx.search(p)):
+                return ' '.join(p.split())[:1500]
+    # no explicit statement: the paragraph that says when the change shows
     for p in paras:
-        if pat.search(p):
-            t = ' '.join(p.split())
-            return t[:700]
-    return None
+        if re.search(r'\bonly (?:when|if|with|for|on)\b|\bshows? (?:only|up)\b|\bvisible only\b|\bneeds\b|\brequires\b', p, re.I):
+            return ' '.join(p.split())[:700]
+    return ' '.join(' '.join(paras[1:3]).split())[:700] if len(paras) > 1 else None
 
 
 def detected(d):
